@@ -109,8 +109,77 @@ partial def walk (al : String) (cap : Option Nat) (len : Nat) (rng : UInt64) (s 
       | some (op, s1, txt, r) =>
         walk al cap (len - 1) rng s1 (txt :: ops) ((resStr r ++ effectStr s s1 op) :: res)
 
+def parseSide (t : String) : Side := if t == "s" then .send else .recv
+
+def parseObs (name : String) : Option Label :=
+  match name with
+  | "len" => some .len | "isempty" => some .isEmpty | "isfull" => some .isFull
+  | "capacity" => some .capacity | "isbounded" => some .isBounded | "scount" => some .senderCount
+  | "rcount" => some .receiverCount | "isclosed" => some .isClosed
+  | "isdisc" => some (.isDisconnected .send) | "isterm" => some .isTerminated
+  | _ => none
+
+/-- Parse one op in the driver's text format (future ids are checked against the model's allocation). -/
+def parseOp (t : String) : Option SeqOp :=
+  match t.splitOn " " with
+  | ["send", m] => m.toNat?.map .send
+  | ["sendt", m, _] => m.toNat?.map (.sendT · false)
+  | ["sendot", m, _] => m.toNat?.map (.sendT · true)
+  | ["try", m, o, r] => m.toNat?.map (.trySend · (o == "1") (r == "1"))
+  | ["recv"] => some .recv
+  | ["recvt", _] => some .recvT
+  | ["tryr", r] => some (.tryRecv (r == "1"))
+  | ["drain", k] => k.toNat?.map .drain
+  | ["asend", _, m] => m.toNat?.map .asend
+  | ["polls", f, w] => do some (.pollS (← f.toNat?) (← w.toNat?))
+  | ["dropsf", f] => f.toNat?.map .dropSF
+  | ["arecv", _] => some (.arecv false)
+  | ["stream", _] => some (.arecv true)
+  | ["pollr", f, w] => do some (.pollR (← f.toNat?) (← w.toNat?))
+  | ["droprf", f] => f.toNat?.map .dropRF
+  | ["clone", sd, same] => some (.clone (parseSide sd) (same == "1"))
+  | ["drop", sd] => some (.dropH (parseSide sd))
+  | ["conv", sd] => some (.conv (parseSide sd))
+  | ["close", sd] => some (.close (parseSide sd))
+  | [name, sd] => (parseObs name).map (.obs · (parseSide sd))
+  | _ => none
+
+/-- `eval`: recompute the oracle's results for given op lines (replay, shrinking).  The
+    ops are taken as they are (no teardown is appended); an op the model does not
+    enable, or whose text differs from what the model would emit (e.g. a `0`/`L`
+    duration that does not match the state), is reported. -/
+def evalLine (line : String) : String :=
+  match line.splitOn "|" with
+  | [capS, opsS] =>
+    match parseCaps capS with
+    | [cap] =>
+      let rec go (s : State) (ops : List String) (k : Nat) (acc : List String) : String :=
+        match ops with
+        | [] => ";".intercalate (acc.reverse ++ [endStr s])
+        | t :: rest =>
+          if t.isEmpty then go s rest k acc else
+          match parseOp t with
+          | none => s!"BAD-OP {k} {t}"
+          | some op =>
+            match seqStep Variant.good s op with
+            | none => s!"DISABLED {k} {t}"
+            | some (s1, txt, r) =>
+              if txt != t then s!"DISABLED {k} {t} (model would issue: {txt})"
+              else go s1 rest (k + 1) ((resStr r ++ effectStr s s1 op) :: acc)
+      go (State.init cap) (opsS.splitOn ";") 0 []
+    | _ => "BAD-LINE"
+  | _ => "BAD-LINE"
+
+partial def evalLoop (h : IO.FS.Stream) : IO Unit := do
+  let line ← h.getLine
+  if line.isEmpty then return ()
+  let line := line.trimAscii.toString
+  if !line.isEmpty then IO.println (evalLine line)
+  evalLoop h
+
 def main (args : List String) : IO UInt32 := do
   match args with
+  | ["eval"] => evalLoop (← IO.getStdin); return 0
   | ["exh", al, depth, caps] =>
     for cap in parseCaps caps do
       dfs al cap depth.toNat! (State.init cap) [] []
